@@ -65,7 +65,7 @@ def replay_states(ctx, fmt, sts, profiles, build, *, attrs_of, cap, sectors_api=
                 if b is None:
                     continue
                 diskcheck.check_image(sub, fmt, img, view, b, r, full=prof.get("full", False), attrs=attrs_of(img, prof),
-                                      cap=cap, sectors_api=sectors_api)
+                                      cap=prof.get("cap", cap), sectors_api=sectors_api, max_len=prof.get("max_len", 8 << 20))
                 sub.extra["images_replayed"] = sub.extra.get("images_replayed", 0) + 1
                 if len(sub.violations) >= sub.max_violations:
                     return
